@@ -17,7 +17,7 @@ model's export_file, and every patch created by the real `stg import` with the m
 import_file.  Direct oracle: export a generated series (text / binary / empty / non-UTF-8
 contents, odd file names, removed and mode-changed files, multi-paragraph messages with
 trailers, non-ASCII authors), import it on the same base through the series, single-file,
-gzip and tar.gz forms and compare name, tree, author and message of every patch; a patch
+gzip, bzip2, tar, tar.gz and tar.bz2 forms (mbox separately) and compare name, tree, author and message of every patch; a patch
 that does not apply must create nothing and leave the work tree untouched.
 Partial: git diff-tree / git apply (the diff itself), gzip/bzip2/tar decoding and the mbox
 form (git mailsplit / mailinfo) are outside the model; mbox is exercised by the direct oracle."""
@@ -279,7 +279,7 @@ def build_edriver():
         return exe
 
 
-FORMS = ["series", "files", "gz", "tgz"]
+FORMS = ["series", "files", "gz", "tgz", "bz2", "tar", "tbz2"]
 
 
 def roundtrip(stg, ed, rng, npatch, with_bad, form, tag="c18"):
@@ -304,19 +304,20 @@ def roundtrip(stg, ed, rng, npatch, with_bad, form, tag="c18"):
         if form == "series":
             p = r.stg(stg, ["import", "--series", os.path.join(outdir, "series")])
             rcs = [p]
-        elif form == "tgz":
-            tgz = os.path.join(r.home, "series.tar.gz")
-            subprocess.run(["tar", "czf", tgz, "-C", r.home, "out"], check=True)
+        elif form in ("tgz", "tar", "tbz2"):
+            ext, flag = {"tgz": ("tar.gz", "czf"), "tar": ("tar", "cf"), "tbz2": ("tar.bz2", "cjf")}[form]
+            tgz = os.path.join(r.home, "series." + ext)
+            subprocess.run(["tar", flag, tgz, "-C", r.home, "out"], check=True)
             p = r.stg(stg, ["import", "--series", tgz])
             rcs = [p]
         else:
             rcs = []
             for nm in names:
                 path = os.path.join(outdir, nm)
-                if form == "gz":
-                    subprocess.run(["gzip", "-k", "-f", path], check=True)
+                if form in ("gz", "bz2"):
+                    subprocess.run(["gzip" if form == "gz" else "bzip2", "-k", "-f", path], check=True)
                     # the patch name is derived from the file name: keep it
-                    rcs.append(r.stg(stg, ["import", "--name", nm, path + ".gz"]))
+                    rcs.append(r.stg(stg, ["import", "--name", nm, path + "." + form]))
                 else:
                     rcs.append(r.stg(stg, ["import", path]))
         for p in rcs:
@@ -504,7 +505,7 @@ def run(ctx):
     ed = EDriver(exe)
     failures = []
     seen_known = set()
-    nrt = 6 if ctx.quick() else 80
+    nrt = 7 if ctx.quick() else 84
     e2e = 0
     forms = {}
     for i in range(nrt):
